@@ -375,6 +375,11 @@ func main() {
 		for j := 0; j < width; j++ {
 			c, err := respc.Dial(cl.Nodes[j%len(cl.Nodes)].Addr(), 30*time.Second)
 			if err != nil {
+				if lines := cl.CrashLines(); len(lines) > 0 {
+					// not a harness problem: a node process ended by itself
+					report(witness{Kind: "crash", Detail: fmt.Sprintf("%s: a node is not reachable because its process exited on its own: %v", name, lines), Sig: "crash|node exited"})
+					return
+				}
 				fail("dial " + name)
 			}
 			defer c.Close()
@@ -383,6 +388,10 @@ func main() {
 		for _, nd := range cl.Nodes {
 			c, err := respc.Dial(nd.Addr(), 30*time.Second)
 			if err != nil {
+				if lines := cl.CrashLines(); len(lines) > 0 {
+					report(witness{Kind: "crash", Detail: fmt.Sprintf("%s: a node is not reachable because its process exited on its own: %v", name, lines), Sig: "crash|node exited"})
+					return
+				}
 				fail("dial " + name)
 			}
 			defer c.Close()
